@@ -9,7 +9,7 @@ SCOPE = [("manager.trim", 400, 60), ("ind.life:ALL", 150, 40), ("hexital.life", 
 ORACLE_RULE = ("C15b: purely recursive indicators appended one candle at a time under a lifespan that always keeps the predecessor, compared exactly with an untrimmed twin; C15a: random stream x lifespan x optional timeframe/fill x append schedule on the real CandleManager; retained candles compared exactly "
                "with the independently computed window of the (resampled) stream after every append")
 ASSUMPTIONS = ["TZ=UTC for this check", "lifespan >= 0"]
-PARTIAL = "first clause (window) proved for every schedule without a timeframe (HexProps.C15.schedule); with a timeframe and the readings clause: correspondence + search"
+PARTIAL = 'window clause proved for every schedule without a timeframe; with a timeframe and the readings clause: correspondence + oracle with an untrimmed twin'
 _case = om.make_case(ID, tf="maybe", life=True)
 _case_fill = om.make_case(ID, tf=True, fill=True, life=True)
 
